@@ -33,7 +33,7 @@ m = dict(
                   serves_properties=[c['property_id'] for c in checks],
                   kind_free_text='Coq 8.16.1 theorems over Gallina models (coq/), extracted with ExtrOcamlBasic to ocaml/driver.exe; Go harness (harness/) runs the implementation from the current working tree on the same cases; python driver compares, triages against known_findings.json and writes evidence')],
     checks=checks,
-    notes='See DESIGN.md. Every check rebuilds the harness against /repo\'s working tree (go build -tags verif, replace => $VERIF_REPO), re-runs the translator and make, re-checks props/<id>.v with coqc, then runs correspondence + oracle.',
+    notes='See DESIGN.md. Every check rebuilds the harness against /repo\'s working tree (go build -tags verif, replace => $VERIF_REPO), runs make over the Coq development, re-checks props/<id>.v with coqc, then runs the correspondence (extracted model vs implementation) and the end-to-end oracles. The models are hand-written; no translator is used.',
     not_applicable=na,
 )
 json.dump(m, open(os.path.join(ROOT, 'MANIFEST.json'), 'w'), indent=1)
